@@ -723,7 +723,7 @@ impl Property for C13 {
         proptest::collection::vec(any::<u16>(), 0..(max_ops * 8 + 8))
             .prop_map(move |genes| {
                 let mut g = Genes::new(genes);
-                let cfg = HistCfg { max_ops, safe_strings: false, w_struct: 8, w_attr: 5, w_chardata: 4, w_create: 5, huge_offsets: true, max_doc: 5, w_compound: 4 };
+                let cfg = HistCfg { max_ops, safe_strings: false, w_struct: 8, w_attr: 5, w_chardata: 4, w_create: 5, huge_offsets: true, max_doc: 5, w_compound: 4, seams: true };
                 hist::gen_history(&mut g, &cfg)
             })
             .boxed()
